@@ -487,6 +487,25 @@ pub fn read_san(text: &str) -> Option<Desc> {
     }
 }
 
+/// does the text carry a capture mark (`x` or `:`) in its body (a trailing `x` is a mate mark)?
+pub fn has_capture_mark(text: &str) -> bool {
+    let b = text.as_bytes();
+    let body = if b.ends_with(b"x") { &b[..b.len() - 1] } else { b };
+    body.iter().any(|&c| c == b'x' || c == b':')
+}
+
+/// short abbreviated-capture text of a pawn capture: origin file, destination file, promotion
+pub fn san_short(m: Mv) -> String {
+    let mut s = String::new();
+    s.push((b'a' + m.from % 8) as char);
+    s.push((b'a' + m.to % 8) as char);
+    if m.promo != 0 {
+        s.push('=');
+        s.push(piece_letter(m.promo));
+    }
+    s
+}
+
 /// does the legal move `m` of `p` agree with what the descriptor says (piece, destination, origin
 /// hints, promotion)?
 pub fn agrees(p: &Pos, m: Mv, d: &Desc) -> bool {
